@@ -107,6 +107,17 @@ fn c15_pair(rep: &mut Report, fam: &str, ra: &RVal, rb: &RVal, a: &Value, b: &Va
 		if a == b && !got {
 			rep.violation("C15:eq-not-implied", format!("[{}] a == b but unordered_eq is false for {}", fam, show(doc_of(ra).as_bytes())), case());
 		}
+		// the impls for annotated values (`locspan::Meta`) and vectors of them
+		{
+			use locspan::Meta;
+			let (ma, mb) = (Meta(a.clone(), 7u8), Meta(b.clone(), 7u8));
+			let g = guard(|| ma.unordered_eq(&mb)).unwrap_or(!want);
+			let gv = guard(|| vec![ma.clone(), mb.clone()].unordered_eq(&vec![mb.clone(), ma.clone()])).unwrap_or(!want);
+			let other_meta = guard(|| ma.unordered_eq(&Meta(b.clone(), 8u8))).unwrap_or(true);
+			if g != want || gv != want || other_meta {
+				rep.violation("C15:meta-impl", format!("[{}] Meta(a,m).unordered_eq(Meta(b,m)) = {}, Vec<Meta> = {}, with different metadata = {}; expected {} {} false", fam, g, gv, other_meta, want, want), case());
+			}
+		}
 		// objects compared directly too
 		if let (Value::Object(oa), Value::Object(ob)) = (a, b) {
 			let g = guard(|| oa.unordered_eq(ob)).unwrap_or(!want);
@@ -359,6 +370,35 @@ pub fn run_c15(cfg: &Config) -> i32 {
 	});
 	total.merge(rep);
 
+	// wide objects (beyond any inline buffer) in which one side repeats a key and the other does not
+	let rep = parallel(cfg.threads, 16, |i| {
+		let mut rep = Report::new();
+		let mut rng = Rng::new(seed).fork(0xc15f + i as u64);
+		for n in [5usize, 16, 17, 31, 32, 33, 34, 40, 64, 65, 100, 257] {
+			let base: Vec<(String, RVal)> = (0..n).map(|j| (format!("k{}", j), RVal::Num((j % 7).to_string()))).collect();
+			// b: the last entry replaced by a second copy of an earlier one (same value): same length, different multiset
+			let mut dup = base.clone();
+			let j = rng.below(n - 1);
+			let copy = dup[j].clone();
+			*dup.last_mut().unwrap() = copy;
+			let mut shuffled = base.clone();
+			rng.shuffle(&mut shuffled);
+			let mut dup_shuffled = dup.clone();
+			rng.shuffle(&mut dup_shuffled);
+			let objs = [RVal::Obj(base), RVal::Obj(dup), RVal::Obj(shuffled), RVal::Obj(dup_shuffled)];
+			for x in 0..4 {
+				for y in 0..4 {
+					let want = nf(&objs[x]) == nf(&objs[y]);
+					c15_pair(&mut rep, "wide-objects-with-one-duplicate", &objs[x], &objs[y], &from_rval(&objs[x]), &from_rval_push(&objs[y]), want, true);
+					rep.distinct_by_construction(1);
+				}
+			}
+			rep.max("widest_compared_object", n as u64);
+		}
+		rep
+	});
+	total.merge(rep);
+
 	// operands that went through object operations (sort applied 0-3 times at every level, rebuilds,
 	// removals and re-insertions) against freshly built permutations of the same content
 	let n = cfg.budget(200_000, 4_000_000);
@@ -426,7 +466,7 @@ pub fn run_c15(cfg: &Config) -> i32 {
 		cfg,
 		EvidenceMeta {
 			id: "C15",
-			rule: "a case is an ordered pair of values; expected verdict = equality of recursively sorted normal forms; exhaustive: every ordered pair of the objects with at most 3 entries over keys {k,l} and 8 values (scalars, objects with duplicate keys in both orders, arrays of different lengths, objects nested under arrays in both member orders); thorough adds sampled pairs of objects with at most 4 entries over 12 values; random: generated values against deep shuffles of themselves and against single mutations (leaf, key, multiplicity, array length/order), shuffled or not; objects with 2..130 entries under one key whose values are nested objects in permuted member order; operands that first went through object operations (sort 0-3 times at every level, remove + re-push, clone) against fresh permutations; checked through UnorderedPartialEq::unordered_eq in both argument orders, Unordered(a)==Unordered(b), as_unordered(), on Value and on Object; distinct by construction / hash",
+			rule: "a case is an ordered pair of values; expected verdict = equality of recursively sorted normal forms; exhaustive: every ordered pair of the objects with at most 3 entries over keys {k,l} and 8 values (scalars, objects with duplicate keys in both orders, arrays of different lengths, objects nested under arrays in both member orders); thorough adds sampled pairs of objects with at most 4 entries over 12 values; random: generated values against deep shuffles of themselves and against single mutations (leaf, key, multiplicity, array length/order), shuffled or not; objects with 2..130 entries under one key whose values are nested objects in permuted member order; operands that first went through object operations (sort 0-3 times at every level, remove + re-push, clone) against fresh permutations; wide objects (5..257 entries) where one side repeats a key; the impls for locspan::Meta and Vec<Meta>; checked through UnorderedPartialEq::unordered_eq in both argument orders, Unordered(a)==Unordered(b), as_unordered(), on Value and on Object; distinct by construction / hash",
 			exhaustive: false,
 			assumptions: vec!["normal form: object entries sorted by (key, normal form of value), arrays in order, scalars by spelling".into()],
 			extra: json!({}),
@@ -486,6 +526,24 @@ fn c14_pair(rep: &mut Report, fam: &str, a: &Value, b: &Value, content_equal: bo
 			format!("[{}] values with {} content: == gives {}", fam, if content_equal { "identical" } else { "different" }, eq),
 			desc(),
 		);
+	}
+	// the comparison operators must agree with cmp (also through wrappers that forward to them)
+	let ops = guard(|| (a < b, a <= b, a > b, a >= b, (1u8, a) >= (1u8, b), std::cmp::Reverse(a) >= std::cmp::Reverse(b), &a >= &b, a != b));
+	if let Ok((lt, le, gt, ge, tge, rge, refge, ne)) = ops {
+		let want = (c == Ordering::Less, c != Ordering::Greater, c == Ordering::Greater, c != Ordering::Less);
+		if (lt, le, gt, ge) != want || tge != want.3 || rge != want.1 || refge != want.3 || ne == eq {
+			rep.violation("C14:operators", format!("[{}] cmp gives {:?} but (<, <=, >, >=) = {:?}, tuple >= {}, Reverse >= {}, & >= {}, != {}", fam, c, (lt, le, gt, ge), tge, rge, refge, ne), desc());
+		}
+	}
+	if let (Value::Object(oa), Value::Object(ob)) = (a, b) {
+		let oc = oa.cmp(ob);
+		let ops = guard(|| (oa < ob, oa <= ob, oa > ob, oa >= ob, (1u8, oa) >= (1u8, ob), std::cmp::Reverse(oa) >= std::cmp::Reverse(ob), oa != ob, oa == ob, oa.partial_cmp(ob)));
+		if let Ok((lt, le, gt, ge, tge, rge, ne, oeq, opc)) = ops {
+			let want = (oc == Ordering::Less, oc != Ordering::Greater, oc == Ordering::Greater, oc != Ordering::Less);
+			if oc != c || (lt, le, gt, ge) != want || tge != want.3 || rge != want.1 || ne == oeq || oeq != eq || opc != Some(oc) {
+				rep.violation("C14:object-operators", format!("[{}] Object cmp gives {:?} (Value cmp {:?}) but (<, <=, >, >=) = {:?}, tuple >= {}, Reverse >= {}, != {}, == {}, partial_cmp {:?}", fam, oc, c, (lt, le, gt, ge), tge, rge, ne, oeq, opc), desc());
+			}
+		}
 	}
 	if eq != eq_rev {
 		rep.violation("C14:eq-asymmetric", format!("[{}] a==b is {} but b==a is {}", fam, eq, eq_rev), desc());
@@ -640,6 +698,31 @@ pub fn run_c14(cfg: &Config) -> i32 {
 				0 => ra.clone(),
 				1 => gen::gen_value(&mut rng, &p, 0),
 				_ => mutate_once(&mut rng, &ra),
+			};
+			// sometimes both values sit at the bottom of the same deep nest (comparison code may switch strategy with depth)
+			let (ra, rb) = if k % 50 == 7 {
+				let depth = rng.range(100, 260);
+				let shape: Vec<bool> = (0..depth).map(|_| rng.chance(1, 2)).collect();
+				let wrap = |v: RVal| -> RVal {
+					let mut v = v;
+					for s in &shape {
+						v = if *s { RVal::Arr(vec![v]) } else { RVal::Obj(vec![("k".into(), v)]) };
+					}
+					v
+				};
+				rep.max("deepest_compared_nesting", depth as u64);
+				// regrouping variants of the same leaf sequence are the classic blind spot of flattened comparisons
+				let (x, y) = match rng.below(4) {
+					0 => (RVal::Arr(vec![RVal::Arr(vec![RVal::Num("1".into())]), RVal::Num("2".into())]), RVal::Arr(vec![RVal::Arr(vec![RVal::Num("1".into()), RVal::Num("2".into())])])),
+					1 => (
+						RVal::Obj(vec![("a".into(), RVal::Obj(vec![("b".into(), RVal::Num("1".into()))])), ("c".into(), RVal::Num("2".into()))]),
+						RVal::Obj(vec![("a".into(), RVal::Obj(vec![("b".into(), RVal::Num("1".into())), ("c".into(), RVal::Num("2".into()))]))]),
+					),
+					_ => (ra, rb),
+				};
+				(wrap(x), wrap(y))
+			} else {
+				(ra, rb)
 			};
 			let a = from_rval(&ra);
 			let b = if rng.chance(1, 2) { from_rval_push(&rb) } else { from_rval(&rb) };
